@@ -172,7 +172,7 @@ func plans0(thorough bool) map[string]PropertyPlan {
 		"C07": {Scenarios: []string{"Q01", "Q01b", "Q01c", "Q01r", "Q02", "Q03", "Q05", "Q05g", "Q05r", "Q07", "Q07m", "Q08", "Q09", "Q10", "Q11"}, Actions: nil, MaxUser: 0,
 			FreeQueues: false, Liveness: true, StateCap: capQ, Monitors: func(w *World, sc *Scenario) []Monitor { return []Monitor{PanicMonitor{}} }},
 		"C06": {Scenarios: c06Scenarios, Actions: nil, MaxUser: 0, Disturbances: []string{"crash", "midcrash", "error", "conflict"}, MaxDisturb: 1,
-			FreeQueues: true, StateCap: capQ, Relabel: true, LiveScenarios: []string{"Q01b"},
+			FreeQueues: true, StateCap: capQ, Relabel: true, LiveScenarios: []string{"Q01b", "Q02", "Q05", "Q08", "Q09", "Q10", "Q11", "Q31"},
 			Monitors: func(w *World, sc *Scenario) []Monitor {
 				return []Monitor{ExposureMonitor{}, StepMonitor{}, BatchStatusMonitor{}, TrafficOrderMonitor{}, VoidMonitor{}, &ExitMonitor{Base: CaptureBaseline(w, sc)}, FinalizerMonitor{}, PanicMonitor{}, OnceMonitor{}, &DiffMonitor{S: NewDiffShared()}}
 			}},
